@@ -104,6 +104,7 @@ def _join_ty(a: str, b: str) -> str:
 FRESH_T = AV(frozenset(), T_TENSOR)
 SCALAR = AV(frozenset(), T_SCALAR)
 FRESH_C = AV(frozenset(), T_CONT)
+EMPTY_C = AV(frozenset(), T_CONT, T_BOT)  # a container created empty ([], {}, dict(), list()): the first store decides its element type
 FRESH_U = AV(frozenset(), T_UNK)
 CALLABLE = AV(frozenset(), T_CALL)
 BOTTOM = AV(frozenset(), T_BOT)
@@ -183,6 +184,10 @@ class Engine:
             self.pkg_method_names |= set(c.methods)
         self.attr_types = self._attr_types()
         self.fn_args = self._function_arguments()
+        # (private module-level function, parameter) -> (type, element type) joined over every call site of the package:
+        # such helpers have no other callers, so what the call sites pass IS what the parameter can be (A5)
+        self.param_types: Dict[Tuple[str, str], Tuple[str, str]] = {}
+        self.param_sites: Dict[Tuple[str, str], Dict[tuple, Tuple[str, str]]] = {}
         self.changed = False
         self.iterations = 0
         self.n_calls_resolved = 0
@@ -471,7 +476,15 @@ class FuncAnalysis:
                 self.ctx_name = p
                 env[p] = FRESH_U
                 continue
-            env[p] = self._param_av(p, T_SCALAR if p in self.scalar_params else self._param_ty(p))
+            ty_ = T_SCALAR if p in self.scalar_params else self._param_ty(p)
+            av0 = self._param_av(p, ty_)
+            if ty_ == T_UNK and fn.cls is None and fn.parent is None and fn.name.startswith("_") and not fn.name.startswith("__"):
+                pt = self.eng.param_types.get((fn.qualname, p))
+                if pt is not None and pt[0] in (T_TENSOR, T_OP):
+                    av0 = self._param_av(p, pt[0])
+                elif pt is not None and pt[0] == T_CONT and pt[1] in (T_TENSOR, T_OP, T_SCALAR, T_CONT):
+                    av0 = AV(av0.prov, T_CONT, pt[1], av0.oprov)
+            env[p] = av0
         for x in a.kwonlyargs:
             env[x.arg] = self._param_av(x.arg, T_SCALAR if x.arg in self.scalar_params else self._param_ty(x.arg))
         if a.vararg:
@@ -763,6 +776,8 @@ class FuncAnalysis:
     def _element(self, it: AV) -> AV:
         """Element of an iterable: same objects for containers, views for tensors."""
         if it.ty == T_CONT:
+            if it.ety == T_BOT:  # element of a container nothing was stored into (on this path)
+                return AV(it.prov, T_UNK, T_UNK, it.oprov)
             return SCALAR if it.ety == T_SCALAR else AV(it.prov, it.ety, T_UNK, it.oprov).with_ty(it.ety)
         if it.ty in (T_SCALAR, T_CALL):
             return SCALAR
@@ -944,6 +959,8 @@ class FuncAnalysis:
         return j
 
     def ev_List(self, e, env):
+        if not e.elts:
+            return EMPTY_C
         return join_all([self._elt(x, env) for x in e.elts], T_CONT)
 
     ev_Set = ev_List
@@ -966,6 +983,8 @@ class FuncAnalysis:
             else:
                 self.ev(k, env)
             vs.append(val)
+        if not vs:
+            return EMPTY_C
         return join_all(vs, T_CONT)
 
     def _comp(self, e, env, elts):
@@ -1207,7 +1226,7 @@ class FuncAnalysis:
             if name in ("map", "filter") and len(args) >= 2:
                 j = self._call_unknown_callable(args[0], [self._element(a) for a in args[1:]])
                 return AV(j.prov, T_CONT, T_UNK, j.oprov)
-            return join_all(els, T_CONT) if els else FRESH_C
+            return join_all(els, T_CONT) if els else (EMPTY_C if not allargs else FRESH_C)
         if name == "getattr" and args:
             return self._content(args[0], T_UNK).join(AV(_sto(args[0].prov), T_UNK))
         if name in ("deepcopy", "copy"):
@@ -1293,7 +1312,7 @@ class FuncAnalysis:
         head = q.split(".")[0]
         if head in ("itertools", "collections"):
             els = [self._element(a) for a in allargs]
-            return join_all(els, T_CONT) if els else FRESH_C
+            return join_all(els, T_CONT) if els else (EMPTY_C if not allargs else FRESH_C)
         if q in ("copy.deepcopy", "copy.copy"):
             return AV(frozenset(), args[0].ty if args else T_UNK)
         if head in ("math", "warnings", "functools", "pickle", "numbers", "numpy", "np", "logging", "copy", "typing",
@@ -1459,6 +1478,22 @@ class FuncAnalysis:
             s = self.eng.summary_of(callee)
             self.deps.add(callee.qualname)
             binding = self._bind(callee, recv, args, kwargs, flags, e)
+            if callee.cls is None and callee.parent is None and callee.name.startswith("_") and not callee.name.startswith("__") \
+                    and not isinstance(callee.node, ast.Lambda):
+                for p_, av_ in binding.items():
+                    if av_.ty == T_BOT:
+                        continue
+                    key_ = (callee.qualname, p_)
+                    site_ = (self.fn.qualname, getattr(e, "lineno", 0), getattr(e, "col_offset", 0))
+                    sites_ = self.eng.param_sites.setdefault(key_, {})
+                    sites_[site_] = (av_.ty, av_.ety)  # what THIS call site passes now (types sharpen over the iterations)
+                    tys_ = {t_[0] for t_ in sites_.values()}
+                    etys_ = {t_[1] for t_ in sites_.values()}
+                    new_ = (tys_.pop() if len(tys_) == 1 else T_UNK, etys_.pop() if len(etys_) == 1 else T_UNK)
+                    if new_ != self.eng.param_types.get(key_):
+                        self.eng.param_types[key_] = new_
+                        self.eng.changed = True
+                        self.eng.changed_set.add(callee.qualname)
             for p, kind in s.mut.items():
                 actual = binding.get(p)
                 if actual is None:
